@@ -44,13 +44,24 @@ META = {
     "(two-sided, ulp-derived bounds on rebuilt sizes/origins); query geometries of every kind (multi-part, points, lines, "
     "collections, holes, concave) with/without cache and in another CRS incl. continental EPSG:4326 polygons judged by a "
     "fresh pyproj projection of the densified geometry; every grid value through pickle/copy/deepcopy/another interpreter "
-    "with behavioural equality; the CRS guard of idx_bounds; a time-boxed multi-thread stress of one shared instance.",
-    "note": "Trusted: Lean kernel + {propext, Classical.choice, Quot.sound}; shapely `disjoint` enters the "
-    "polygon theorems as a parameter with its contract as hypothesis (driver instance: separating-axis test for "
-    "convex polygons, validated against shapely each run); theorems are over exact rationals — IEEE rounding is "
-    "covered only by the bit-exact F-mode correspondence and the float-stream oracles (slack 1e-9 relative); "
-    "reprojection of the query polygon (to_crs) is not modelled (only the CRS guard of idx_bounds is); thread safety of a "
-    "shared instance is sampled by a time-boxed stress, not proved.",
+    "with behavioural equality; the CRS guard of idx_bounds; a time-boxed multi-thread stress of one shared instance.  Growth "
+    "round: degenerate (zero width/height/area) queries always return the centre tile; multi-part geometries (one scan of the "
+    "whole bbox, kept iff some part is not disjoint, each once; sound/complete per part); `__eq__` holds iff same shape and same "
+    "footprint for every index (and provably ignores the resolution sign); `alignment` is the offset of every pixel edge of every "
+    "tile; geojson index walk; from_sample_tile axes are independent; E/F transfer theorems; links to the C20 Bin1D model and the "
+    "C02 GeoBox model (resolution / boundingbox / extent of every tile).",
+    "note": "Trusted: Lean kernel + {propext, Classical.choice, Quot.sound}; shapely `disjoint` enters the polygon / multi-part "
+    "theorems as a parameter with its contract as hypothesis (driver instance: separating-axis test for convex rings, validated "
+    "against shapely each run); theorems are over exact rationals — IEEE rounding is covered by the bit-exact F-mode correspondence, "
+    "by the transfer theorems (rounded model = exact model whenever the listed intermediates are representable; no closed-form "
+    "representability criterion for fl64 is proved) and by the float-stream oracles; thread safety of a shared instance is sampled by a "
+    "time-boxed stress, not proved.  NOT mirrored in the Lean model (inventory of odc/geo/gridspec.py and math.py:568-637): CRS "
+    "normalisation `norm_crs_or_error` and the input normalisers `shape_`/`res_`/`ixy_` (argument forms), `assert isinstance(origin, XY)`; "
+    "`dimensions`, `tile_shape`, `__str__`/`__repr__`; `geojson`'s default branch (CRS valid_region, buffer, to_crs(resolution=0.5)), "
+    "its feature geometries (lon/lat conversion of the extent) and `properties`; the reprojection `to_crs(check_and_fix=True)` of the "
+    "query geometry (pyproj) and shapely's `disjoint`/`bounds` themselves; generator laziness of `tiles` (the model consumes the whole "
+    "generator; the cache is threaded per consumed tile); `__eq__` with a non-GridSpec / non-Bin1D operand (False) and the absence of "
+    "`__hash__`; pickling (`__slots__` of Bin1D); NaN/inf/overflowing inputs (only the NaN bounds of an empty geometry → ValueError).",
     "technique": "Lean 4 proof over hand model + exact and bit-exact (binary64) differential correspondence with real code",
     "design_ref": "DESIGN.md §4 C14",
 }
@@ -1641,6 +1652,103 @@ def run(R: Run):
             ok, what = other_crs_geom(O, shp)
             R.oracle(ok, "polygon-query-other-crs", {"op": "geom4326", "wkb": shp.wkb_hex, "wkt": shp.wkt[:300]}, what,
                      sig="geom|other-crs|" + shp.geom_type)
+
+    # --- growth round: __eq__, alignment, geojson index walk, multi-part geometries, degenerate boxes (exact stream)
+    import shapely.geometry as sg3
+    lat_sel = rng.sample(lattice, R.pick(24, 64))
+    for sp in lat_sel:
+        gs = sp.make(O)
+        # __eq__: against itself rebuilt, sign-flipped resolutions, other flips / origin / shape, other CRS
+        variants = [Spec(sp.ny, sp.nx, sp.rx, sp.ry, sp.ox, sp.oy, sp.fx, sp.fy), Spec(sp.ny, sp.nx, -sp.rx, sp.ry, sp.ox, sp.oy, sp.fx, sp.fy),
+                    Spec(sp.ny, sp.nx, sp.rx, -sp.ry, sp.ox, sp.oy, sp.fx, sp.fy), Spec(sp.ny, sp.nx, sp.rx, sp.ry, sp.ox, sp.oy, not sp.fx, sp.fy),
+                    Spec(sp.ny, sp.nx, sp.rx, sp.ry, sp.ox + 0.25, sp.oy, sp.fx, sp.fy), Spec(sp.nx, sp.ny, sp.rx, sp.ry, sp.ox, sp.oy, sp.fx, sp.fy),
+                    Spec(sp.ny, sp.nx * 2, sp.rx / 2, sp.ry, sp.ox, sp.oy, sp.fx, sp.fy), rng.choice(lattice)]
+        for v in variants:
+            gv = v.make(O)
+            out = corr(R, f"c14 eq E {sp.tok()} {v.tok()} T", lambda: bool_s(gs == gv), sig="eq|same-crs")
+            same_tiling = (tuple(gs.tile_shape) == tuple(gv.tile_shape)
+                           and all(fbb(gs[k].boundingbox) == fbb(gv[k].boundingbox) for k in ((0, 0), (1, 1), (-2, 3))))
+            R.oracle((out == "T") == same_tiling, "gridspec-eq-is-not-same-tiling", {"op": "eq", "a": sp.tok(), "b": v.tok()},
+                     f"gs1 == gs2 is {out} but same shape and same tile footprints is {same_tiling}", sig="eq|tiling")
+        g_other = O.GridSpec("epsg:32755", (sp.ny, sp.nx), O.resxy_(sp.rx, sp.ry), origin=O.xy_(sp.ox, sp.oy), flipx=sp.fx, flipy=sp.fy)
+        corr(R, f"c14 eq E {sp.tok()} {sp.tok()} F", lambda: bool_s(gs == g_other), sig="eq|other-crs")
+        # alignment
+        corr(R, f"c14 align E {sp.tok()}", lambda: (lambda a: f"{fs(a.x)} {fs(a.y)}")(gs.alignment), sig="align|E")
+        corr(R, f"c14 align F {sp.tok()}", lambda: (lambda a: f"{fs(a.x)} {fs(a.y)}")(gs.alignment), sig="align|F")
+        # geojson index walk + degenerate boxes + multi-part geometries in tile units
+        dx, dy = (-1 if sp.fx else 1), (-1 if sp.fy else 1)
+        i0, j0 = rng.randint(-2, 2), rng.randint(-2, 2)
+        X = lambda a: float(Fraction(sp.ox) + (dx * i0 + Fraction(a)) * sp.szx)
+        Y = lambda b: float(Fraction(sp.oy) + (dy * j0 + Fraction(b)) * sp.szy)
+        idxs_of = lambda fc: list_s([tuple(int(v) for v in f["properties"]["idx"].split(",")) for f in fc["features"]], idx_s)
+        qb = (X(Fraction(1, 4)), Y(Fraction(1, 4)), X(Fraction(9, 4)), Y(Fraction(5, 4)))
+        tri = convex_pts(rng, [(X(Fraction(1, 4)), Y(Fraction(1, 4))), (X(Fraction(11, 4)), Y(Fraction(1, 2))), (X(Fraction(1, 2)), Y(Fraction(9, 4)))])
+        ptok = list_s(tri, lambda p: f"{fs(p[0])};{fs(p[1])}")
+        bbq = O.BoundingBox(*qb, CRS)
+        pq = mk_poly(O, tri)
+        for m in "EF":
+            corr(R, f"c14 gj {m} {sp.tok()} B {' '.join(fs(v) for v in qb)}", lambda: idxs_of(gs.geojson(bbox=bbq)), sig="geojson|bbox")
+            corr(R, f"c14 gj {m} {sp.tok()} P {ptok}", lambda: idxs_of(gs.geojson(geopolygon=pq)), sig="geojson|poly")
+            corr(R, f"c14 gj {m} {sp.tok()} PB {ptok} {' '.join(fs(v) for v in qb)}", lambda: idxs_of(gs.geojson(bbox=bbq, geopolygon=pq)),
+                 sig="geojson|both")
+        for q in ((X(Fraction(1, 4)), Y(Fraction(1, 4)), X(Fraction(1, 4)), Y(Fraction(9, 4))),      # zero width inside a tile column
+                  (X(Fraction(1, 4)), Y(Fraction(1, 2)), X(Fraction(13, 4)), Y(Fraction(1, 2))),     # zero height inside a tile row
+                  (X(Fraction(3, 4)), Y(Fraction(3, 4)), X(Fraction(3, 4)), Y(Fraction(3, 4))),      # a point inside a tile
+                  (X(1), Y(Fraction(1, 4)), X(1), Y(Fraction(5, 4)))):                                # zero width ON a tile edge
+            emit_query(R, O, gs, sp, q, "EF" if e_safe_query(sp, q) else "F", "|degenerate")
+            oracle_query(R, gs, sp, q, False, O)
+            got = guarded_obj(lambda: {tuple(map(int, k)) for k, _ in ltiles(gs.tiles(O.BoundingBox(*q, CRS)))})
+            ctr = tuple(map(int, gs.pt2idx((q[0] + q[2]) / 2, (q[1] + q[3]) / 2).xy))
+            R.oracle(got is not None and ctr in got, "bbox-query-misses-centre-tile", {"op": "tiles", "grid": sp.tok(), "bbox": [fs(v) for v in q]},
+                     f"degenerate query {q}: the tile {ctr} containing its centre is not returned ({sorted(got or [])[:6]})", sig="query|centre")
+        # multi-part: convex parts (boxes / triangles) in separate tiles of one row / column / diagonal / scattered
+        for arr in ("row", "col", "diag", "near"):
+            gap = rng.choice([2, 3])
+            cells = {"row": [(0, 0), (gap, 0), (2 * gap, 0)], "col": [(0, 0), (0, gap)], "diag": [(0, 0), (gap, gap)],
+                     "near": [(0, 0), (1, 0), (1, 1)]}[arr]
+            rings = []
+            for (ci, cj) in cells:
+                a, b = sorted(rng.sample([Fraction(n, 8) for n in range(1, 8)], 2))
+                c, d = sorted(rng.sample([Fraction(n, 8) for n in range(1, 8)], 2))
+                if rng.random() < 0.5:
+                    ring = [(X(ci + a), Y(cj + c)), (X(ci + b), Y(cj + c)), (X(ci + b), Y(cj + d)), (X(ci + a), Y(cj + d))]
+                else:
+                    ring = [(X(ci + a), Y(cj + c)), (X(ci + b), Y(cj + c)), (X(ci + a), Y(cj + d))]
+                rings.append(convex_pts(rng, ring))
+            rng.shuffle(rings)
+            mp = sg3.MultiPolygon([sg3.Polygon(r) for r in rings])
+            tokp = "|".join(list_s(r, lambda p: f"{fs(p[0])};{fs(p[1])}") for r in rings)
+            for m in "EF":
+                corr(R, f"c14 mpoly {m} {sp.tok()} {tokp}",
+                     lambda: list_s(sorted((tuple(map(int, k)) for k, _ in ltiles(gs.tiles_from_geopolygon(O.geom.Geometry(mp, CRS)))), key=key_yx), idx_s),
+                     sig=f"mpoly|{m}|{arr}")
+            oracle_geom(R, gs, sp, mp, True, O, kind="mpoly-" + arr)
+    spx = lattice[0]
+    corr(R, f"c14 mpoly E {spx.tok()} -",
+         lambda: list_s([tuple(map(int, k)) for k, _ in ltiles(spx.make(O).tiles_from_geopolygon(O.geom.Geometry(sg3.MultiPolygon([]), CRS)))], idx_s),
+         sig="mpoly|empty")
+    # alignment on realistic doubles: F-mode line + exact oracle (0 <= a < |res| and origin - a is a multiple of |res|)
+    for _ in range(R.pick(60, 600)):
+        (ny_, nx_), (rx_, ry_), (ox_, oy_) = rng.choice(presets)
+        if rng.random() < 0.5:
+            ox_, oy_ = rng.uniform(-6e6, 6e6), rng.uniform(-6e6, 6e6)
+        spf = Spec(ny_, nx_, rx_ * rng.choice([1, -1]), ry_ * rng.choice([1, -1]), ox_, oy_, False, False)
+        gsf = spf.make(O)
+        corr(R, f"c14 align F {spf.tok()}", lambda: (lambda a: f"{fs(a.x)} {fs(a.y)}")(gsf.alignment), sig="align|F|float")
+        al = guarded_obj(lambda: gsf.alignment)
+        ok = al is not None
+        if ok:
+            for a, o, r in ((al.x, spf.ox, spf.rx), (al.y, spf.oy, spf.ry)):
+                ar = abs(Fraction(r))
+                nq = (Fraction(o) - Fraction(a)) / ar
+                ok = ok and 0 <= Fraction(a) <= ar and abs(nq - round(nq)) <= Fraction(1, 10**6)
+        R.oracle(ok, "alignment-not-pixel-offset", {"op": "align", "grid": spf.tok()}, f"alignment {al} for origin {(spf.ox, spf.oy)} resolution {(spf.rx, spf.ry)}",
+                 sig="align|oracle")
+    # the proved observation gridspec_eq_ignores_resolution_sign, replayed on the real code
+    ga = O.GridSpec(CRS, (10, 10), O.resxy_(0.5, -0.5))
+    gb_ = O.GridSpec(CRS, (10, 10), O.resxy_(-0.5, -0.5))
+    R.notes.append(f"GridSpec.__eq__ ignores the sign of the resolution (theorem gridspec_eq_ignores_resolution_sign): "
+                   f"GridSpec((10,10),(0.5,-0.5)) == GridSpec((10,10),(-0.5,-0.5)) is {ga == gb_} while their tiles [0,0] compare {ga[0, 0] == gb_[0, 0]}")
 
     # --- the CRS guard of idx_bounds / tiles: a bounding box in a foreign CRS is rejected today (corr stream)
     for sp in rng.sample(lattice, 6):
